@@ -205,7 +205,7 @@ PROPS['C12']['claim'] = 'Positions are true positions, relationally: mark_after(
 PROPS['C12']['not_decided'] = ['ScanError Display (external trait impl) and with_span on loaded nodes (C19 territory)', 'error markers: covered where the error is built from self.mark or a saved mark of a verified function; ScanError::new_str is external_body and assumed to store the marker it is given', 'spans of events synthesised by the parser (empty scalars, implicit document start/end) are copies of token marks; the copying itself is not specified', '"a nested node starts no earlier than its parent" follows from token order and is not stated']
 PROPS['C01']['not_decided'] = ['linear work bound (no cost model in the verifier)', 'the functions listed as external_body in the evidence (ScanError constructors, SkipTabs accessors, the Iterator::next wrappers of Scanner and Parser, BufferedInput::peek/peek_nth, StrInput::fetch_while_is_alpha, in the quick tier the body of scan_block_scalar): a panic inside them would not be seen', 'Iterator for Scanner / Parser: the trait impls cannot carry the invariant as a precondition; they only forward to next_token / next_event, which are verified']
 PROPS['C02']['claim'] = "Every state function of the pull parser, parse, next_event_impl, next_event and peek are verified by Verus against a push-down automaton for the event grammar written from the property statement (g_step over abs(state, states)), for ALL token streams - hence all inputs and all input back ends - with no bound; anchor ids via the anchors_inv invariant and the per-event anchor_step clause. Push interface: with the ghost log rlog() of what a receiver has been handed, log_cfg(log) (the fold of g_step over the log) equals the parser's own configuration after every successful load_node / load_sequence / load_mapping / load_document, and Parser::load from a fresh parser hands over a complete sentence (log_cfg == Done with multi, Done or Between without). Tests sample ~170 documents; the contract quantifies over every token sequence."
-PROPS['C06']['not_decided'] = ['that a character-level damage operator produces the token pattern on the left of each parser clause (needs the functional spec of the scanner, see C03)', 'scanner-level rejections are stated where the scanner function is under contract: quoted scalar still open at the end of input / at a document marker (#closing-quote-seen), tab as indentation in plain and quoted scalars (pws_ok / qws_ok), unknown or truncated escape (#error-only-for-bad-escape), stale required key and key longer than 1024 characters (#required-key-went-stale), key where keys are not allowed, zero indentation indicator (thorough tier); "content after a document-end marker" and "flow collection continued no deeper than its enclosing block" are checked by skip_to_next_token / the flow fetchers but not stated as separate clauses', 'alias without anchor: parse_node returns Err when the lookup fails, but the clause is not stated separately']
+PROPS['C06']['not_decided'] = ['that a character-level damage operator produces the token pattern on the left of each parser clause (needs the functional spec of the scanner, see C03)', 'scanner-level rejections are stated where the scanner function is under contract: quoted scalar still open at the end of input / at a document marker (#closing-quote-seen), tab as indentation in plain and quoted scalars (pws_ok / qws_ok), unknown or truncated escape (#error-only-for-bad-escape), stale required key and key longer than 1024 characters (#required-key-went-stale), key where keys are not allowed, zero indentation indicator (thorough tier), tab as block indentation in front of a token (skip_to_next_token against the oracle stn_ok), content after a document-end marker (fetch_next_token #nothing-after-document-end), a quoted implicit key spanning lines (scan_flow_scalar #quoted-key-on-one-line), a flow collection continued no deeper than its enclosing block (#flow-deeper-than-block, #one-column-deeper)', 'alias without anchor is stated over the parser\'s anchor table (parse_node #unknown-alias: a name the table does not hold is an error); that the table holds exactly the anchors seen so far in the stream follows from register_anchor / anchors_inv']
 PROPS['C14']['not_decided'] = ['the bisimulation between the run on s and on crlf(s) as a two-run theorem (what is proved: every break-consuming step has the same effect on line, column and text for LF, CR LF and lone CR)']
 PROPS['C16']['not_decided'] = ['scan_tag / scan_tag_handle / scan_tag_shorthand_suffix / scan_verbatim_tag / scan_tag_prefix are under contract for position, termination and their stop characters; that their text is the handle / suffix as written is stated for scan_uri_escapes (percent-decoding, incl. multi-byte UTF-8) only']
 PROPS['C17']['not_decided'] = ['event-for-event equality of the push and pull streams as one trace theorem: what is proved is that both pull through next_event_impl, that the push interface delivers every event it pulls at once and in order (ghost log rlog(), also on the error path), and that the log follows the same grammar configuration as the parser', 'determinism of parse (A4) is assumed for the history lemma']
